@@ -271,7 +271,7 @@ def jobs(tier):
     q = tier == "quick"
     for mod in (1, 0):
         out.append(dict(func="cross", params=dict(modifiable=mod)))
-        for prod, kq, kt in (("sync", 4, 6), ("pdo", 4, 5), ("guard", 4, 6), ("hb", 3, 4)):
+        for prod, kq, kt in (("sync", 4, 6), ("pdo", 4, 5), ("guard", 4, 6), ("hb", 3, 3)):
             k = kq if q else kt
             fn, ops = PRODUCERS[prod]
             for first in ops:
@@ -298,7 +298,7 @@ META = dict(
     bounds=dict(quick="histories: SYNC k<=4 over {start(p), start(), stop}; PDO k<=4 over {start(p), start(), stop, update, "
                       "assign}; guarding k<=4; heartbeat k<=3 over {write 0x1017 (16-bit symbolic), NMT command (cs symbolic, "
                       "target own/0/other), state name}; cross-producer scenario with disconnect; both bus flavours",
-                thorough="SYNC/guarding k<=6, PDO k<=5, heartbeat k<=4"),
+                thorough="SYNC/guarding k<=6, PDO k<=5, heartbeat k<=3 (one k=4 job ran past 82000 paths / 600 s)"),
     outside_bounds=["timing of the transmissions themselves (python-can)", "heartbeat after disconnect",
                     "interleaving calls from several threads"],
     assumptions=["periods are positive integers (seconds) in the harness; heartbeat time t ms gives period t/1000.0"],
